@@ -168,6 +168,8 @@ def run(repo: Repo, tier: str) -> Report:
     for c, why in need.items():
         ob("R-FORMULA", "gammastd", f"{why}: every cell is nodata", c in conds, f"all-nodata returns under {sorted(conds)}; required one under {c}",
            f"return np.full_like(x, nodata) when {why}")
+    from .spi_common import threshold_rule
+    threshold_rule(ob, spi)
     nofit = [c for c in conds if c.startswith("or[eq0[") and c.count("eq0[") == 2]
     ob("R-FORMULA", "gammastd", "no fit (alpha == 0 or beta == 0): every cell is nodata", len(nofit) == 1, f"conditions {sorted(conds)}",
        "return np.full_like(x, nodata) when alpha == 0 or beta == 0")
@@ -217,7 +219,45 @@ def run(repo: Repo, tier: str) -> Report:
     used = set()
     for s in cell:
         used |= {n.id for n in ast.walk(s.stmt.value) if isinstance(n, ast.Name)}
-    dep = sorted(assigned_in_loop & used)
+    # a loop-local scalar that is itself a function of x[ix] and pixel constants only (val = x[ix]; cdf = gammainc(alpha, val / beta)) is not a
+    # second cell-dependent input: resolve such temporaries through their single definition in the loop
+    loop_defs = {}
+    k_g = spi.k["gammastd"].node
+    in_loop_ids = {id(n_) for n_ in ast.walk(loop)}
+    assigned_outside = {n_.id for n_ in ast.walk(k_g) if isinstance(n_, ast.Name) and isinstance(n_.ctx, ast.Store) and id(n_) not in in_loop_ids} | set(spi.k["gammastd"].params)
+    for st_ in ast.walk(loop):
+        if isinstance(st_, ast.Assign) and len(st_.targets) == 1 and isinstance(st_.targets[0], ast.Name):
+            loop_defs.setdefault(st_.targets[0].id, []).append(st_.value)
+
+    def cell_function(name, seen=()):
+        if name in seen or len(loop_defs.get(name, [])) != 1:
+            return False
+        v = loop_defs[name][0]
+        if any(isinstance(n_, ast.Name) and n_.id == name for n_ in ast.walk(v)):
+            return False      # loop-carried: the value of an earlier cell flows in
+        if name in assigned_outside:
+            # the name is also bound elsewhere: fine only if this definition dominates every read inside the loop
+            # (it is a top-level statement of the loop body, or of the block that contains all reads, and no read precedes it)
+            def_st = [st_ for st_ in ast.walk(loop) if isinstance(st_, ast.Assign) and st_.value is v][0]
+            reads = [n_ for n_ in ast.walk(loop) if isinstance(n_, ast.Name) and n_.id == name and isinstance(n_.ctx, ast.Load)]
+
+            def covers(block):
+                if def_st not in block:
+                    return None
+                i_ = block.index(def_st)
+                later = {id(n_) for st_ in block[i_ + 1:] for n_ in ast.walk(st_)}
+                return all(id(r_) in later for r_ in reads)
+            verdicts = [covers(b_) for b_ in [loop.body] + [getattr(n_, f_) for n_ in ast.walk(loop) for f_ in ("body", "orelse") if isinstance(getattr(n_, f_, None), list)]]
+            if not any(v_ for v_ in verdicts if v_ is not None):
+                return False
+        if any(isinstance(n_, ast.Subscript) and not (isinstance(n_.value, ast.Name) and n_.value.id == x and ast.unparse(n_.slice) == ix) for n_ in ast.walk(v)
+               if isinstance(n_, ast.Subscript) and isinstance(n_.value, ast.Name) and n_.value.id in assigned_in_loop | {x}):
+            return False
+        for n_ in ast.walk(v):
+            if isinstance(n_, ast.Name) and n_.id in assigned_in_loop and n_.id != name and not cell_function(n_.id, seen + (name,)):
+                return False
+        return True
+    dep = sorted(n_ for n_ in assigned_in_loop & used if not cell_function(n_))
     ob("R-LOOPINV", "gammastd", "p0, alpha, beta are pixel constants: nothing assigned in the cell loop enters the index expression", not dep,
        f"names assigned inside the cell loop and used in the expression: {dep}", loop)
     final = cell[-1]
